@@ -316,6 +316,18 @@ def a2a_templates():
     t.append("def test(a: Qint[2]) -> Qint[4]:\n    return max(range(3), 1) + a")
     t.append("def test(a: Qint[2]) -> Qint[4]:\n    return sum(range(0)) + a")
     t.append("def test(a: Qint[2]) -> Qint[4]:\n    return abs(range(3)) + a")
+    # ---- second regression group: repaired by cbb039f (reserved names: now rejected), 31c53a1 (ragged rows), e979369
+    t.append("def test(c: bool, u: Tuple[Qint[2], bool]) -> bool:\n    t = (True, False)\n    if c:\n        t = (False, True)\n    return t[u[0]]")
+    t.append("def test(c: bool, u: Tuple[Qint[2], bool]) -> Qint[4]:\n    t = (1, 2)\n    if c:\n        t = (3, 4)\n    return t[u[0]]")
+    t.append("def test(m: Tuple[Tuple[bool, bool], Tuple[bool, bool, bool]], i: Qint[2], j: Qint[2]) -> bool:\n    return m[i][j]")
+    t.append("def test(a: bool, b: bool) -> bool:\n    _temptup = (a, b)\n    a, b = b, a\n    return _temptup[0]")
+    t.append("def test(a: bool, b: bool, c: bool) -> bool:\n    _iftarg2 = c\n    if a:\n        b = not b\n    return _iftarg2")
+    t.append("def test(a: bool, b: bool, c: bool) -> bool:\n    if a:\n        _iftarg9 = c\n    else:\n        _iftarg9 = b\n    return _iftarg9")
+    t.append("def test(a: bool, b: bool) -> bool:\n    _temptup = a\n    a, b = b, _temptup\n    return a and _temptup")
+    t.append("def test(_forit3: bool) -> bool:\n    return _forit3")
+    t.append("def test(a: bool) -> bool:\n    _x = a\n    _y, _z = _x, not _x\n    if _y:\n        _z ^= _x\n    return _z")
+    t.append("def test(m: Tuple[Tuple[bool, bool, bool], Tuple[bool]], i: Qint[2], j: Qint[2]) -> bool:\n    return m[i][j]")
+    t.append("def test(m: Tuple[Tuple[bool, bool], bool], i: Qint[2], j: Qint[2]) -> bool:\n    return m[i][j]")
     # ---- parameters bound to constants and then re-assigned (what bind() injects)
     t.append("def test(a: Qint[2]) -> Qint[4]:\n    p = 0\n    q = 3\n    p = p + a\n    q = q + p\n    return q")
     t.append("def test(a: Qint[2]) -> Qint[4]:\n    p = False\n    p = not p\n    return a if p else a + 1")
@@ -329,19 +341,8 @@ def a2a_templates():
 def open_finding_templates():
     """Programs the CURRENT /repo accepts and mis-translates (reported, not yet repaired or listed in
     known_findings.json).  Their evaluation failures are returned as `open_findings`, not as
-    `impl_failures`; once repaired they belong in a2a_templates()."""
-    t = []
-    # the constants recorded for a name are flow-insensitive: a tuple of CONSTANTS re-assigned under an if
-    t.append("def test(c: bool, u: Tuple[Qint[2], bool]) -> bool:\n    t = (True, False)\n    if c:\n        t = (False, True)\n    return t[u[0]]")
-    t.append("def test(c: bool, u: Tuple[Qint[2], bool]) -> Qint[4]:\n    t = (1, 2)\n    if c:\n        t = (3, 4)\n    return t[u[0]]")
-    # a ragged tuple of tuples indexed by two variables: every row is given the first row's length
-    t.append("def test(m: Tuple[Tuple[bool, bool], Tuple[bool, bool, bool]], i: Qint[2], j: Qint[2]) -> bool:\n    return m[i][j]")
-    # user variables named like the rewriter's temporaries
-    t.append("def test(a: bool, b: bool) -> bool:\n    _temptup = (a, b)\n    a, b = b, a\n    return _temptup[0]")
-    t.append("def test(a: bool, b: bool, c: bool) -> bool:\n    _iftarg2 = c\n    if a:\n        b = not b\n    return _iftarg2")
-    t.append("def test(a: bool, b: bool, c: bool) -> bool:\n    if a:\n        _iftarg9 = c\n    else:\n        _iftarg9 = b\n    return _iftarg9")
-    t.append("def test(a: bool, b: bool) -> bool:\n    _temptup = a\n    a, b = b, _temptup\n    return a and _temptup")
-    return t
+    `impl_failures`; once repaired they belong in a2a_templates().  Empty at /repo e979369."""
+    return []
 
 
 def _cond(rng, bools, ints, loopvars, depth=2):
